@@ -143,8 +143,7 @@ def run_adaptive(nodes, rng, n_ops, opts=None, flavour="future"):
             o["jobs"] = sorted(run.jobs)
             obs.append(o)
         try:
-            await vloop.settle(loop, rounds=2)
-            run.take_log()
+            await do({"op": "settle"})      # construction-time activity (timed windows emit an empty batch at once)
             for _ in range(n_ops):
                 await do(choose_op(rng, run, nodes, st, opts))
             # drain
@@ -162,15 +161,23 @@ def run_adaptive(nodes, rng, n_ops, opts=None, flavour="future"):
                             break
                 else:
                     break
-            await do({"op": "advance", "dt": big})
-            while run.pending or run.jobs:
+            # keep going until nothing but empty time-window ticks happens any more
+            def busy(o):
+                return any(e[0] in ("arrive", "jobstart") and e[3 if e[0] == "arrive" else 3] not in ({"t": []}, [])
+                           for e in o["log"] if e[0] in ("arrive", "jobstart"))
+            calm = 0
+            for _ in range(120):
                 if run.pending:
                     await do({"op": "sinkdone", "tok": sorted(run.pending)[0]})
-                else:
+                    calm = 0
+                elif run.jobs:
                     await do({"op": "jobdone", "job": sorted(run.jobs)[0]})
-                if len(case["ops"]) > n_ops + 400:
-                    break
-            await do({"op": "advance", "dt": big})
+                    calm = 0
+                else:
+                    await do({"op": "advance", "dt": big})
+                    calm = 0 if busy(obs[-1]) or run.pending or run.jobs else calm + 1
+                    if calm >= 3:
+                        break
             return obs
         finally:
             run.cleanup()
@@ -186,8 +193,6 @@ def rerun(case):
         run = graphlib.Run(case, loop=loop, consumer_flavour=case.get("flavour", "future"))
         obs = []
         try:
-            await vloop.settle(loop, rounds=2)
-            run.take_log()
             for op in case["ops"]:
                 err = run.do_sync(op)
                 if op["op"] == "advance":
@@ -275,16 +280,26 @@ def oracle_lossless(case, obs):
     got = sink_sequences(case, obs)
     problems = []
     for s in want:
-        chain = [nodes[u]["kind"] for u in upstream_chain(nodes, s)]
-        batching = any(k in BATCHING for k in chain)
-        w = [x for v in want[s] for x in (flat(v) if batching else [v])]
-        g = [x for v in got[s] for x in (flat(v) if batching else [v])]
-        if batching and "flatten" in chain:
-            w = [x for v in want[s] for x in [v]]
-            g = list(got[s])
+        ups_idx = upstream_chain(nodes, s)
+        chain = [nodes[u]["kind"] for u in ups_idx]
+        # does the sink see batches (nearest batching/flatten ancestor is a batching node)?
+        sees_batches = False
+        cur = s
+        while nodes[cur].get("ups"):
+            cur = nodes[cur]["ups"][0]
+            if nodes[cur]["kind"] == "flatten":
+                break
+            if nodes[cur]["kind"] in BATCHING:
+                sees_batches = True
+                break
+        w = [x for v in want[s] for x in (flat(v) if sees_batches else [v])]
+        g = [x for v in got[s] for x in (flat(v) if sees_batches else [v])]
+        keyed = any(nodes[u]["kind"] == "partition_timeout" and nodes[u].get("key") for u in ups_idx)
+        if keyed:
+            # a keyed partition keeps order per key only: compare as multisets
+            w, g = sorted(map(repr, w)), sorted(map(repr, g))
         if g != w:
-            kind = "lost" if len(g) < len(w) and g == w[:len(g)] else ("duplicated-or-reordered" if sorted(map(str, g)) != sorted(map(str, w)) or True else "")
-            if len(g) < len(w) and g == w[:len(g)]:
+            if len(g) < len(w) and (keyed or g == w[:len(g)]):
                 kind = "lost"
             elif len(g) > len(w):
                 kind = "duplicated"
@@ -475,12 +490,46 @@ def oracle_backpressure(case, obs):
         accepted = sum(1 for s in stats if s == "done")
         for i in first_after_source:
             bound = nodes[i]["n"] if nodes[i]["kind"] == "buffer" else nodes[i].get("parallelism", 1)
+            if nodes[i]["kind"] == "map_async" and accepted - handed[i] == bound + 1:
+                problems.append(("bound-exceeded-by-one:map_async",
+                                 "op %d %r: %d emissions accepted but only %d handed on by node %d (map_async, parallelism %d): parallelism+1 jobs are in flight"
+                                 % (k, op, accepted, handed[i], i, bound)))
+                continue
             if accepted - handed[i] > bound:
                 problems.append(("bound-exceeded:" + nodes[i]["kind"],
                                  "op %d %r: %d emissions accepted (awaitable completed) but only %d handed on by node %d (%s, bound %d)"
                                  % (k, op, accepted, handed[i], i, nodes[i]["kind"], bound)))
                 return problems
+    if problems:
+        return problems[:1]
     last = obs[-1]
+    zips = [i for i, n in enumerate(nodes) if n["kind"] == "zipmax"]
+    if zips:
+        # a producer that is ahead of the other one by more than maxsize is legitimately blocked
+        z = zips[0]
+        srcs = nodes[z]["ups"]
+        per = {s: [] for s in srcs}
+        ix = 0
+        for op in case["ops"]:
+            if op["op"] == "emit":
+                if op["node"] in per:
+                    per[op["node"]].append(ix)
+                ix += 1
+        tuples = min(len(v) for v in per.values())
+        stats = last.get("emits", [])
+        if not last.get("pending") and not last.get("jobs"):
+            for s_, idxs in per.items():
+                for j, ix in enumerate(idxs):
+                    may_block = j >= tuples + nodes[z]["maxsize"]
+                    if ix < len(stats) and stats[ix] == "pending" and not may_block:
+                        problems.append(("emit-stuck:zipmax", "emit #%d (element %d of source %d) never completed although only %d tuple(s) were formed and maxsize is %d"
+                                         % (ix, j, s_, tuples, nodes[z]["maxsize"])))
+                        return problems
+                    if ix < len(stats) and stats[ix] == "done" and may_block:
+                        problems.append(("zip-maxsize-admits-all-blocked", "emit #%d (element %d of source %d) was accepted although %d elements of that source are unmatched (maxsize %d)"
+                                         % (ix, j, s_, len(idxs) - tuples, nodes[z]["maxsize"])))
+                        return problems
+        return problems
     if not last.get("pending") and not last.get("jobs"):
         for ix, stat in enumerate(last.get("emits", [])):
             if stat == "pending":
@@ -501,19 +550,18 @@ def oracle_windows(case, obs):
         arrivals = []       # (time, value, tags)
         batches = []        # (time, [values], tags)
         blocked = []        # (from, to) downstream pending intervals of this node's emissions
-        downs = [j for j, n in enumerate(nodes) if i in n.get("ups", [])]
-        direct_async_sink = len(downs) == 1 and nodes[downs[0]]["kind"] == "sink" and nodes[downs[0]].get("mode") == "async"
         open_tok = {}
         for op, o in zip(case["ops"], obs):
-            prev = None
+            in_emit = False
             for e, t in zip(o["log"], o["t"]):
                 if e[0] == "arrive" and e[1] == i:
                     arrivals.append((t, graphlib.decanon(e[3]), e[4]))
+                    in_emit = False
                 elif e[0] == "emit" and e[1] == i:
                     batches.append((t, list(graphlib.decanon(e[2])), e[3]))
-                elif e[0] == "arrive":
-                    prev = e
-                elif e[0] == "start" and direct_async_sink and e[1] == downs[0]:
+                    in_emit = True
+                elif e[0] == "start" and in_emit:
+                    # a consumer invocation started by this node's emission: the node is blocked until it finishes
                     open_tok[e[2]] = t
             if op["op"] == "sinkdone" and op["tok"] in open_tok:
                 blocked.append((open_tok.pop(op["tok"]), o["now"]))
@@ -521,6 +569,8 @@ def oracle_windows(case, obs):
         for tok, t0 in open_tok.items():
             blocked.append((t0, end))
         vals = [v for _, v, _ in arrivals]
+        below = [j for j in range(len(nodes)) if i in upstream_chain(nodes, j)]
+        timing_below = any(nodes[j]["kind"] in HOLDING for j in below)
         if k == "timed_window":
             got = [x for _, b, _ in batches for x in b]
             if got != vals[:len(got)] or (len(got) != len(vals) and not obs[-1].get("pending")):
@@ -533,7 +583,7 @@ def oracle_windows(case, obs):
                     ta = arrivals[pos][0]
                     pos += 1
                     blk = sum(max(0, min(tb, b1) - max(ta, b0)) for b0, b1 in blocked)
-                    if tb - ta > nd["interval"] + blk + 1e-9:
+                    if not timing_below and tb - ta > nd["interval"] + blk + 1e-9:
                         problems.append(("window-deadline:timed_window", "node %d: element %r arrived at %s and was emitted at %s (interval %s, blocked %s)"
                                          % (i, x, ta, tb, nd["interval"], blk)))
         elif k == "partition_timeout":
@@ -577,41 +627,24 @@ def oracle_windows(case, obs):
             from . import catalogue
             keyf = catalogue.make_fn(nd["key"])
             keep_last = nd.get("keep", "first") == "last"
-            # windows are delimited by the emission instants
-            pos = 0
-            bt = [tb for tb, _, _ in batches]
-            for bi, (tb, b, _) in enumerate(batches):
-                seg = []
-                while pos < len(arrivals) and (arrivals[pos][0] < tb or (arrivals[pos][0] == tb and False)):
-                    seg.append(arrivals[pos][1])
-                    pos += 1
-                want = []
-                for v in seg:
-                    ky = keyf(v)
-                    if keep_last:
-                        want = [w for w in want if keyf(w) != ky] + [v]
-                    elif all(keyf(w) != ky for w in want):
-                        want.append(v)
-                # arrivals exactly at the tick instant may fall on either side: accept both readings
-                if list(b) != want:
-                    rest = [a for a in arrivals[pos:] if a[0] == tb]
-                    ok = False
-                    for j in range(1, len(rest) + 1):
-                        w2 = list(want)
-                        for _, v, _ in rest[:j]:
-                            ky = keyf(v)
-                            if keep_last:
-                                w2 = [w for w in w2 if keyf(w) != ky] + [v]
-                            elif all(keyf(w) != ky for w in w2):
-                                w2.append(v)
-                        if list(b) == w2:
-                            pos += j
-                            ok = True
-                            break
-                    if not ok:
-                        problems.append(("window-conservation:timed_window_unique", "node %d: window ending %s received %r (keep=%s) but emitted %r"
-                                         % (i, tb, seg, nd.get("keep", "first"), b)))
-                        break
+            # a window is what arrived between two emissions, in event order
+            cur = []
+            for op, o in zip(case["ops"], obs):
+                for e, t in zip(o["log"], o["t"]):
+                    if e[0] == "arrive" and e[1] == i:
+                        v = graphlib.decanon(e[3])
+                        ky = keyf(v)
+                        if keep_last:
+                            cur = [w for w in cur if keyf(w) != ky] + [v]
+                        elif all(keyf(w) != ky for w in cur):
+                            cur.append(v)
+                    elif e[0] == "emit" and e[1] == i:
+                        b = list(graphlib.decanon(e[2]))
+                        if b != cur:
+                            problems.append(("window-conservation:timed_window_unique",
+                                             "node %d: the window ending at %s must contain %r (keep=%s) but %r was emitted"
+                                             % (i, t, cur, nd.get("keep", "first"), b)))
+                        cur = []
     return problems
 
 
